@@ -412,6 +412,31 @@ func init() {
 						c.Violation("many-slots", fmt.Sprintf("the page rendered %s, want %q", clipS(got.Describe(), 600), clipS(want.String(), 600)), map[string]any{"files": describeFiles(files)})
 					}
 				}},
+				// component and page files of 64 KiB .. 5 MiB: the placeholder at the very end of the component file, the use at
+				// the very end of the page
+				{Name: "large-files", Exhaustive: true, N: 6, Run: func(c *core.Ctx, i int) {
+					size := []int{64 << 10, 1<<20 - 100, 1 << 20, 1<<20 + 4096, 2<<20 + 1, 5 << 20}[i]
+					line := "<li>a row of the sheet, é</li>\n"
+					filler := strings.Repeat(line, size/len(line)+1)
+					comp := "<sheet {{ t }}>" + filler + "[@slot][@slot(\"foot\")]</sheet {{ t }}>"
+					page := filler + "@component(\"~sheet\", {t: \"T\" + n.str()})@slot body {{ n }}@end@slot(\"foot\")foot@end@end" + "<end>"
+					want := filler + "<sheet T7>" + filler + "[ body 7][foot]</sheet T7><end>"
+					files := map[string]string{"components/sheet.tw": comp, "page.tw": page}
+					tpl, err := loadTree(c, "c07big", files, ".tw")
+					c.Input(map[string]any{"file_bytes_about": size})
+					c.Nontrivial(fmt.Sprint("large-files", size))
+					if err != nil {
+						c.Violation("load-failed", fmt.Sprintf("a valid component tree with files of %d bytes was rejected: %s", size, clipS(err.Error(), 300)), map[string]any{"file_bytes_about": size})
+						return
+					}
+					if tpl == nil {
+						return
+					}
+					got, _ := renderPage(c, tpl, "page", map[string]any{"n": 7})
+					if !got.Panicked && (got.Err != nil || got.Out != want) {
+						c.Violation("large-files", fmt.Sprintf("files of about %d bytes: the page rendered %d bytes (error %v), want %d bytes ending in %q", size, len(got.Out), got.Err, len(want), want[len(want)-40:]), map[string]any{"file_bytes_about": size})
+					}
+				}},
 				// text between a component's ")" and what follows is text unless it is plain whitespace before a @slot:
 				// whatever the rest renders to, these bytes must be in the output
 				{Name: "text-after-component", Exhaustive: true, N: 9 * 3, Run: func(c *core.Ctx, i int) {
